@@ -37,6 +37,12 @@ def strategy(tier):
     @st.composite
     def cases(draw):
         spec, focus = draw(gen.specs_and_focus(opts, 8))
+        if _qbearing(spec) and draw(st.integers(0, 5)) == 0:
+            # a bare Count visited after a quantity-bearing sibling: the only place where fill.numpy hands a *scalar*
+            # weight to a Count, whose transform is recognised by object identity (lost by unpickling)
+            kind = draw(st.sampled_from(("Branch", "UntypedLabel")))
+            kids = [spec, {"k": "Count"}]
+            spec = {"k": kind, "values": kids} if kind == "Branch" else {"k": kind, "pairs": {"a": kids[0], "b": kids[1]}}
         rec = draw(gen.recipes(spec, max_rows=10, focus=focus))
         crit = gen.critical_values(spec)
         more = [[draw(gen.rows(crit, True, none_cats=False, focus=focus)), draw(gen.weights(True))] for _ in range(draw(st.integers(0, 5)))]
